@@ -28,7 +28,7 @@ ASSUMPTIONS = ["files are UTF-8; 'numeric' means accepted by Python's float()/in
 
 KINDS = ["faithful", "faithful", "torn", "line_lost", "line_dup", "byte_flip", "crlf", "no_final_newline",
          "edge_2_tokens", "edge_4_tokens", "bad_weight", "bad_vertex_count", "constraint_absent", "open_oserror", "readlines_oserror"]
-NODES = ["a", "b", "c", "d", "e", "s", "t", "x1", "y", "0", "1", "2", "n_3", "A"]
+NODES = ["a", "b", "c", "d", "e", "s", "t", "x1", "y", "0", "1", "2", "n_3", "A", "utg#1", "n#", "p:2"]     # a '#' inside a name is not a comment
 
 
 def gen_world(seed, tier):
@@ -177,9 +177,9 @@ def deliver(world, data):
         if kind == "edge_2_tokens":
             lines[i] = " ".join(toks[:2])
         elif kind == "edge_4_tokens":
-            lines[i] = " ".join(toks + ["7"])
+            lines[i] = " ".join(toks + [rng.choice(["7", "7", "#", "# 5", "x"])])
         else:
-            lines[i] = " ".join(toks[:2] + [rng.choice(["abc", "1,5", "--3", "1.2.3", "0x1f", ""]) or "x"])
+            lines[i] = " ".join(toks[:2] + [rng.choice(["abc", "1,5", "--3", "1.2.3", "0x1f", "", "4#", "4#1"]) or "x"])
         return join(lines), None
     if kind == "bad_vertex_count":
         cand = [i for i, l in enumerate(lines) if l.strip().isdigit()]
